@@ -265,7 +265,6 @@ func (c *Ctx) typeCheckWorldExtra(u, extra *Unit, fieldHoles map[string]bool, s 
 var _ = parser.ParseFile
 var _ = token.NoPos
 
-
 var descRootRe = regexp.MustCompile(`[\w@.()\[\]]+?\.Desc\.`)
 
 // normKeyExpr renders the part of an emitted line between the markers with
